@@ -348,8 +348,8 @@ def main():
     if os.environ.get('VERIF_C04_ONLY') == 'usage':
         shapes = shapes[:5]
     if a.tier == 'quick' and not a.replay:
-        # all heads with arity <= 1; arity 2 for a seeded sixth of the heads
-        keep = set(r.sample(heads, max(1, len(heads) // 6)))
+        # all heads with arity <= 1; arity 2 for a seeded tenth of the heads
+        keep = set(r.sample(heads, max(1, len(heads) // 10)))
         shapes = [s for s in shapes if len(s[1]) <= 1 or s[0] in keep]
     qk = a.tier == 'quick'
     chunks = [[(h, k, qk) for h, k in shapes[i::64]] for i in range(64)]
